@@ -89,13 +89,55 @@ fn state_of(w: &MWord, seg_is: impl Fn(&MSeg) -> bool) -> Option<St> {
     Some(St { len, stress: sy.stress, tone: sy.tone })
 }
 
-const KINDS: [&str; 12] = ["in-ipa", "in-group", "in-matrix", "in-syll", "out-seg", "out-seg-matrix-in", "out-seg-feat", "out-syll", "ctx-syll-after", "ctx-syll-before", "ctx-seg-after", "ctx-seg-before"];
+const KINDS: [&str; 13] = ["out-two", "in-ipa", "in-group", "in-matrix", "in-syll", "out-seg", "out-seg-matrix-in", "out-seg-feat", "out-syll", "ctx-syll-after", "ctx-syll-before", "ctx-seg-after", "ctx-seg-before"];
+
+impl C05 {
+    /// two targets next to each other in one syllable (`a` in the state under test, then `e` short / long / overlong, or the other way round): `V:[-high] > [M]`
+    /// must leave each of them in a state the table allows — a length change of the first must not displace the second
+    fn check_two(&self, s: &St, posn: usize) -> Outcome {
+        let t = tables(); let (a, e) = (t.by_name["a"], t.by_name["e"]);
+        let mut nontrivial = false;
+        for len2 in 1..=3u8 { for a_first in [true, false] {
+            let rep = |g: &str, n: u8| format!("{g}{}", "ː".repeat(n as usize - 1));
+            let pair = if a_first { format!("{}{}", rep("a", s.len), rep("e", len2)) } else { format!("{}{}", rep("e", len2), rep("a", s.len)) };
+            let body = match posn { 0 => format!("{pair}p"), 1 => format!("p{pair}p"), _ => format!("p{pair}") };
+            let mark = match s.stress { 1 => "ˈ", 2 => "ˌ", _ => "." };
+            let text = format!("ti{mark}{body}{}.ku", if s.tone != 0 { s.tone.to_string() } else { String::new() });
+            let Ok(Ok(w)) = api::parse_word(&text) else { return Outcome::fail("out-two|word does not parse", json!({"word": text})) };
+            let mw = MWord::from_asca(&w);
+            for m in all_mods() {
+                let mt = mods_text(&m, true);
+                if mt.is_empty() { continue }
+                let rule = format!("V:[-high] > [{mt}]");
+                let cell = |what: &str| format!("out-two|{what}|long={:?},over={:?},stress={:?},sec={:?},tone={}|len{}+{len2}{}", m.long, m.over, m.stress, m.sec, m.tone.is_some(), s.len, if a_first { "" } else { " reversed" }).replace("Some(true)", "+").replace("Some(false)", "-").replace("None", "0");
+                let (ea, ee) = (set_states(s, &m), set_states(&St { len: len2, ..*s }, &m));
+                match api::apply_rules(&[rule.clone()], &w) {
+                    Err(ab) => return Outcome::fail(format!("{}|{}", cell("abnormal"), ab.signature()), json!({"rule": rule, "word": text})),
+                    Ok(Err(err)) => if ea.is_some() { return Outcome::fail(cell("unexpected error"), json!({"rule": rule, "word": text, "error": format!("{err:?}")})) },
+                    Ok(Ok(g)) => {
+                        let g = MWord::from_asca(&g);
+                        let (Some(ea), Some(ee)) = (ea, ee) else { return Outcome::fail(cell("contradictory output accepted"), json!({"rule": rule, "word": text, "got": g.show()})) };
+                        let Some(sy) = g.sylls.get(1) else { return Outcome::fail(cell("wrong resulting state"), json!({"rule": rule, "word": text, "got": g.show()})) };
+                        let (na, ne) = (sy.segs.iter().filter(|x| **x == a).count() as u8, sy.segs.iter().filter(|x| **x == e).count() as u8);
+                        let vow: Vec<&MSeg> = sy.segs.iter().filter(|x| **x == a || **x == e).collect();
+                        let ordered = if a_first { vow.iter().position(|x| **x == e).map(|i| vow[i..].iter().all(|x| **x == e)).unwrap_or(true) } else { vow.iter().position(|x| **x == a).map(|i| vow[i..].iter().all(|x| **x == a)).unwrap_or(true) };
+                        let frame_ok = g.sylls.len() == 3 && g.sylls[0] == mw.sylls[0] && g.sylls[2] == mw.sylls[2] && sy.segs.iter().filter(|x| **x != a && **x != e).count() == mw.sylls[1].segs.iter().filter(|x| **x != a && **x != e).count();
+                        let ok = frame_ok && ordered && ea.iter().any(|st| st.len == na && st.stress == sy.stress && st.tone == sy.tone) && ee.iter().any(|st| st.len == ne && st.stress == sy.stress && st.tone == sy.tone);
+                        if !ok { return Outcome::fail(cell("wrong resulting state"), json!({"rule": rule, "word": text, "expected_a": format!("{ea:?}"), "expected_e": format!("{ee:?}"), "got": g.show()})) }
+                        if g != mw { nontrivial = true; }
+                    }
+                }
+            }
+        } }
+        if nontrivial { Outcome::pass_nt(hash64(&(s.len, s.stress, s.tone, posn))) } else { Outcome::pass() }
+    }
+}
 
 impl Property for C05 {
     fn id(&self) -> &'static str { "C05" }
     fn rule(&self) -> String {
         "Exhaustive: 36 states of a target vowel/syllable (length 1-3 × unstressed/primary/secondary × tone 0/5/51/1234) × 405 modifier combinations ({absent,+,-} over long, overlong, stress, sec.stress × tone absent or one of four values) \
-         × 12 element kinds (input modifier on IPA `a:[M]`, group `V:[+low,M]`, matrix `[+syll,M]`, syllable `%:[M]`; output matrix on a segment `a > [M]`, `[+syll] > [M]` and, together with a feature change, `a > [+nasal,M]` (every copy must be changed); output matrix on `%`; the same modifiers on an element of the environment: `_%:[M]`, `%:[M]_`, `_a:[M]`, `[+syll,+low,M]_`, with the neighbouring segment as focus) × target first/middle/last in its syllable (word `ti.<syll>.ku`). \
+         × 13 element kinds (input modifier on IPA `a:[M]`, group `V:[+low,M]`, matrix `[+syll,M]`, syllable `%:[M]`; output matrix on a segment `a > [M]`, `[+syll] > [M]` and, together with a feature change, `a > [+nasal,M]` (every copy must be changed); output matrix on `%`; `V:[-high] > [M]` on two adjacent targets of one syllable (`a` in the state under test next to a short / long / overlong `e`, both orders); the same modifiers on an element of the environment: `_%:[M]`, `%:[M]_`, `_a:[M]`, `[+syll,+low,M]_`, with the neighbouring segment as focus) × target first/middle/last in its syllable (word `ti.<syll>.ku`). \
          Match outcome (marker `[+nasal]` resp. `[tone:7]`) and resulting state are compared with a table model typed from the manual; where the manual leaves a choice (`[-sec.stress]` on a secondary-stressed syllable) every documented-consistent result is accepted; \
          contradictory combinations must be errors in outputs and must be errors or never match in inputs; length on `%` must be rejected. One case = (state, kind, position) = 405 cells. Non-trivial: the model predicts a state change or a failed match for some cell. Both tiers enumerate the whole space.".into()
     }
@@ -110,6 +152,7 @@ impl Property for C05 {
     fn check(&self, case: &Value) -> Outcome {
         let s = St { len: case["len"].as_u64().unwrap_or(1) as u8, stress: case["stress"].as_u64().unwrap_or(0) as u8, tone: case["tone"].as_u64().unwrap_or(0) as u16 };
         let kind = case["kind"].as_str().unwrap_or("in-ipa"); let posn = case["pos"].as_u64().unwrap_or(0) as usize;
+        if kind == "out-two" { return self.check_two(&s, posn) }
         let text = word_text(&s, posn);
         let w = match api::parse_word(&text) { Ok(Ok(w)) => w, other => return Outcome::fail("word does not parse", json!({"word": text, "r": format!("{other:?}")})) };
         let mw = MWord::from_asca(&w);
